@@ -271,6 +271,7 @@ pub fn run(mut run: Run) -> i32 {
     let n = pts.len();
     run.extra.insert("lattice_points".into(), json!(n));
     let small = HaversineMeasure::new(1000.0);
+    let unit_sphere = HaversineMeasure::new(1.0);
     let big_sphere = HaversineMeasure::new(24622000.0);
     run.stage("lattice-pairs", n * n, |idx, acc| {
         let (a, b) = (pts[idx / n], pts[idx % n]);
@@ -324,7 +325,40 @@ pub fn run(mut run: Run) -> i32 {
         space_pair_checks!(acc, idx, "Haversine", &Haversine, a, b, 1.0);
         space_pair_checks!(acc, idx, "Geodesic", &Geodesic, a, b, 1.0);
         space_pair_checks!(acc, idx, "Rhumb", &Rhumb, a, b, 1.0);
+        // nearly coincident points on spheres of other sizes (a unit sphere measures in radians): nothing may depend on an absolute number of metres
+        space_pair_checks!(acc, idx, "HaversineMeasure(r=1)", &unit_sphere, a, b, 1.0 / 6371008.8);
+        space_pair_checks!(acc, idx, "HaversineMeasure(r=1000)", &small, a, b, 1000.0 / 6371008.8);
+        space_pair_checks!(acc, idx, "HaversineMeasure(r=24622000)", &big_sphere, a, b, 24622000.0 / 6371008.8);
     });
+    // long line strings (hundreds to thousands of coordinates): the length is the sum of the segment distances, whatever block size a summation uses
+    {
+        let sizes: Vec<usize> = if quick { vec![2, 3, 255, 256, 257, 258, 513, 1000, 4097] } else { vec![2, 3, 63, 64, 65, 127, 128, 129, 255, 256, 257, 258, 511, 512, 513, 1000, 1023, 1024, 1025, 4096, 4097, 10001, 65537] };
+        run.stage("long-line-string-lengths", sizes.len(), |idx, acc| {
+            let m = sizes[idx];
+            let cs: Vec<Point<f64>> = (0..m).map(|i| Point::new(-30.0 + 0.01 * i as f64 + 0.003 * ((i * 7) % 5) as f64, 40.0 + 0.02 * ((i * 3) % 11) as f64 - 0.004 * i as f64 % 1.0)).collect();
+            let ls = LineString::from(cs.clone());
+            acc.class("long line string".into());
+            macro_rules! go {
+                ($name:expr, $sp:expr) => {{
+                    acc.evals += 1;
+                    let sum: f64 = cs.windows(2).map(|w| $sp.distance(w[0], w[1])).sum();
+                    match guard(|| $sp.length(&ls)) {
+                        Err(e) => acc.viol(format!("{} length of a long line string panic", $name), idx, || json!({"coordinates": m, "panic": e})),
+                        Ok(l) => {
+                            if (l - sum).abs() > 1e-9 * sum.max(1.0) {
+                                acc.viol(format!("{} length of a long line string is not the sum of its segment distances", $name), idx, || json!({"coordinates": m, "length": l, "sum": sum}));
+                            }
+                        }
+                    }
+                }};
+            }
+            go!("Haversine", Haversine);
+            go!("Geodesic", Geodesic);
+            go!("Rhumb", Rhumb);
+            go!("HaversineMeasure(r=1000)", small);
+            go!("Euclidean", geo::Euclidean);
+        });
+    }
     let lats: Vec<f64> = pts.iter().filter(|p| p.0 == 0.0).map(|p| p.1).collect();
     let nl = lats.len();
     run.stage("antimeridian", nl * nl * 2, |idx, acc| {
